@@ -48,6 +48,8 @@ struct Sched {
     blocked_yields: u64,
     /// starve this thread until the given step
     starve: Option<(usize, u64)>,
+    /// long preemption: (thread, until step)
+    hold: Option<(usize, u64)>,
     recent: std::collections::VecDeque<(usize, &'static str, bool)>,
     log: Vec<(u64, usize, &'static str, u64)>,
     starve_on_drop: u32,
@@ -106,6 +108,7 @@ pub fn begin(seed: u64, stickiness: u8, replay: Option<Vec<u16>>, max_steps: u64
         site_hits: Default::default(),
         blocked_yields: 0,
         starve,
+        hold: None,
         recent: Default::default(),
         log: vec![],
         starve_on_drop: 0,
@@ -197,6 +200,22 @@ impl Sched {
             }
         } else {
             let mut cands = live.clone();
+            // long preemption: now and then the running thread loses the CPU for many steps at
+            // the very point where it is, so that other threads complete whole operations inside
+            // whatever window it has open (between a check and a lock, a draw and a publish, ...)
+            if self.hold.is_none() && !me_blocked && live.len() > 1 && self.rng.below(30) == 0 {
+                self.hold = Some((me, self.steps + self.rng.range(6, 150)));
+            }
+            if let Some((v, until)) = self.hold {
+                if self.steps >= until || self.threads[v] == St::Done {
+                    self.hold = None;
+                } else if cands.iter().any(|i| *i != v && (self.threads[*i] == St::Ready && !(*i == me && me_blocked))) {
+                    cands.retain(|i| *i != v);
+                } else {
+                    // everybody else waits (probably for something the held thread owns)
+                    self.hold = None;
+                }
+            }
             // a blocked thread usually lets the others run first - but not always (a spinning
             // thread on a real machine can get several turns in a row)
             if me_blocked && cands.len() > 1 && self.rng.below(6) != 0 {
